@@ -303,8 +303,12 @@ def discriminating_path(
             if next_node in explored_nodes:
                 continue
 
-            # keep track of explored_nodes
-            explored_nodes.add(next_node)
+            # 'this_node' is a collider on the path only if there is an
+            # arrowhead at 'this_node' on the edge from 'next_node'
+            if not graph.has_edge(
+                next_node, this_node, graph.directed_edge_name
+            ) and not graph.has_edge(next_node, this_node, graph.bidirected_edge_name):
+                continue
 
             # Check if 'next_node' is now the end of the discriminating path.
             # Note we now have 3 edges in the path by construction.
